@@ -256,6 +256,10 @@ func genAdmitCase(r *Rng, i int, k AdmitKnobs) *AdmitCase {
 		if r.Chance(1, 5) {
 			a.Remaining = pick(r, []time.Duration{200 * time.Millisecond, 1900 * time.Millisecond, 2 * time.Second, 2100 * time.Millisecond, 10 * time.Second, 3 * time.Second})
 		}
+		if r.Chance(1, 30) {
+			a.Remaining = 1 // the request's deadline has already passed when it arrives
+			tag("deadline.alreadyPassed")
+		}
 	}
 	// metadata no property mentions: equal / different generations and resource versions on the object and the old object
 	if r.Chance(2, 3) {
